@@ -12,7 +12,7 @@
    on real and adversarial name lists) and the end-to-end oracle that
    recomputes every reported value from the check's own interpreter runs. *)
 From Coq Require Import Permutation Reals.
-From VF Require Import Base.Prelude Model.Valid Proofs.ValidProofs.
+From VF Require Import Base.Prelude Model.Valid Proofs.ValidProofs Proofs.AggProofs.
 Open Scope Z_scope.
 
 Theorem C18_every_name_in_exactly_one_group :
@@ -71,6 +71,38 @@ Theorem C18_ratio_laws :
 Proof. intros tol x y H. split; [apply ratio_nonneg; exact H|apply ratio_refl; exact H]. Qed.
 Print Assumptions C18_ratio_laws.
 Close Scope R_scope.
+
+(* Aggregation over the test inputs of a signature (compare_model): for EVERY
+   number of inputs and every reduction [mean], the value reported for a tensor
+   name is the reduction of exactly the values compare_fn returned for that
+   name — one per input that lists it, in input order (`values`) — and a name
+   is reported iff some input listed it; when every input visits the same
+   names once (same two models on every input), the reduction receives one
+   value per test input. *)
+Theorem C18_reported_value_reduces_the_per_input_values :
+  forall (V : Type) (mean : list V -> V) samples n,
+    lookup (aggregate mean samples) n =
+      match values V n samples with [] => None | vs => Some (mean vs) end.
+Proof. exact aggregate_reports. Qed.
+Print Assumptions C18_reported_value_reduces_the_per_input_values.
+
+Theorem C18_one_value_per_test_input :
+  forall (V : Type) names (samples : list (list (Z * V))) n,
+    uniform V names samples -> In n names -> length (values V n samples) = length samples.
+Proof. exact uniform_one_value_per_input. Qed.
+Print Assumptions C18_one_value_per_test_input.
+
+(* three inputs, two names: each name's list holds its three values in input order *)
+Definition agg_ex : list (list (Z * Z)) :=
+  [[(7, 1); (9, 10)]; [(7, 2); (9, 20)]; [(7, 4); (9, 40)]].
+Example C18_aggregation_nonvacuous :
+  collect agg_ex = [(7, [1; 2; 4]); (9, [10; 20; 40])] /\
+  aggregate (fun l => fold_left Z.add l 0) agg_ex = [(7, 7); (9, 70)] /\
+  uniform Z [7; 9] agg_ex.
+Proof.
+  split; [vm_compute; reflexivity|]. split; [vm_compute; reflexivity|].
+  split; [repeat constructor; cbn; intuition lia|repeat constructor].
+Qed.
 
 (* Non-vacuity: names 1..5; 1 is an input, 4 an output, 2 a constant *)
 Example C18_nonvacuous :
